@@ -455,6 +455,18 @@ func genSal(t *rapid.T, label string) int64 {
 
 // genRules draws n rules with tie-prone saliences. failP, tagP, retP are percentages.
 func genRules(t *rapid.T, minN, maxN int, failP, tagP, retP int) []models.Rule {
+	// now and then a rule set far larger than the usual ones (sorting, searching and fan-out
+	// code often switches algorithm or buffer at some size); few failing rules there
+	if maxN >= 8 {
+		big := 1
+		if thorough() {
+			big = 3
+		}
+		if pct(t, "big_rule_set", big) {
+			minN, maxN = 40, 300
+			failP, tagP = 1, tagP/4
+		}
+	}
 	n := 0
 	if maxN >= 4 && minN < 3 && !pct(t, "few_rules", 12) {
 		n = rapid.IntRange(3, maxN).Draw(t, "nrules")
